@@ -11,6 +11,7 @@ import (
 	"fmt"
 	"io/fs"
 	"log/slog"
+	"math"
 	"net/http"
 	"net/url"
 	"path"
@@ -75,7 +76,7 @@ func cfgFromRequest(r *http.Request, log *slog.Logger) (nowMS int, cfg *Response
 	}
 
 	if cfg.TimeOffsetS != nil && publishTime == "" { // a publishTime was advertised on the shifted clock already
-		offsetMS := int(*cfg.TimeOffsetS * 1000)
+		offsetMS := int(math.Round(*cfg.TimeOffsetS * 1000)) // 1.001*1000 is 1000.9999999999999
 		nowMS += offsetMS
 	}
 
